@@ -362,7 +362,7 @@ func init() {
 		Technique: "runtime monitor: structural counter over the sections/entries of the help text produced by the real library (option lists, required section, defaults, env, synopsis, commands) + three-way equality of the text obtained through help option, help command and Help()",
 		Rule: "case = program with all 12 option kinds stratified (2 forced kinds per case), 0-3 aliases (long and one-letter), required/optional, env binding, single/multi-line descriptions, argument names, synopsis args, command tree depth<=3 with wrappers; every level of the tree is checked; names are generated so that none is a substring of another; " +
 			"distinct = (kinds/aliases/required/env shape of the level); non-trivial = the level has at least 2 options",
-		Cases: func(tier string) int { return tierN(tier, 2400, 600000) },
+		Cases: func(tier string) int { return tierN(tier, 6000, 600000) },
 		Run: func(seed uint64, idx int, tier string) *fw.Result {
 			r := CaseRng(seed, "C18", idx)
 			p := c18Prog(r, idx)
